@@ -562,6 +562,18 @@ class BuiltinMixin:
                 for f in facts:
                     s2.assume(f)
                 yield val, s2
+        elif name == "popleft":
+            n = vs.length()
+            for e, s2 in self.guard(st, n >= 1, "IndexError", "popleft from non-empty deque"):
+                if e is not None:
+                    yield e, s2
+                    continue
+                val = self.elem_value(vs, z3.IntVal(0), s2)
+                facts: list = []
+                s2.heap[ref.ref] = seqs.slice_(vs, z3.IntVal(1), n, facts, self.U.z3sort(vs.elem))
+                for f in facts:
+                    s2.assume(f)
+                yield val, s2
         elif name == "copy":
             yield self.box_list(VSeq(vs.elem, list(vs.pieces)), st), st
         elif name == "clear":
